@@ -83,7 +83,7 @@ def phaseIdxOfKey (fs : List (Nat × ObjFacts)) (ks : String) : Option Nat :=
 def quiet (st : JStep) : Bool := (st.env.getD []).isEmpty && (st.setEnv.getD []).isEmpty
 
 inductive Which where
-  | c03 | c04 | c06 | c09 | c11 | c15
+  | c03 | c04 | c05 | c06 | c09 | c11 | c15
   deriving DecidableEq
 
 /-- C11 on the controller-level stream: a namespaced ObjectSet / same-cluster ObjectSetPhase never
@@ -94,6 +94,21 @@ def judgeNs (scn : SysCommon.Scn) (out : StepOut) : Option String := Id.run do
     match (eventKey e).splitOn "/" with
     | [kind, ns, _] => if ns != "ns1" || scopeOf kind != .namespaced then return some s!"bad write-outside-owner-namespace {e}"
     | _ => return some s!"bad unparsable-event {e}"
+  return none
+
+/-- C05 for a pass of the ObjectSetPhase controller: deletes only what the phase object controls. -/
+def judgePhaseDeletes (scn : SysCommon.Scn) (cfg : Cfg) (st : JStep) (pre : Sys) (out : StepOut) : Option String := Id.run do
+  let some p := pre.w.phases st.set | return none
+  if !quiet st then return none
+  let ow := Pko.Model.Remote.phaseOwner p (setKindOf scn) (nsOf scn)
+  for e in out.events do
+    if eventVerb e == "D" then
+      match p.objs.find? (fun o => keyStr (keyOf cfg ow o) == eventKey e) with
+      | none => return some s!"bad delete-of-unlisted-object {e}"
+      | some o =>
+        match pre.w.store.get (keyOf cfg ow o) with
+        | some c => if !isController cfg.st (ow.ref true) c then return some s!"bad delete-of-uncontrolled-object {e}"
+        | none => return some s!"bad delete-of-absent-object {e}"
   return none
 
 /-- C15 for a pass of the ObjectSetPhase controller on phase object `name`. -/
@@ -128,6 +143,23 @@ def judge (which : Which) (scn : SysCommon.Scn) (cfg : Cfg) (st : JStep) (pre : 
   let dupKeys := (fs.map (·.2.key)).eraseDups.length != fs.length
   match which with
   | .c11 => return judgeNs scn out
+  | .c05 =>
+    -- controller level: every delete hits an object the ObjectSet controlled before the pass, an
+    -- orphaned ObjectSet deletes nothing (neither objects nor its delegated phase objects)
+    if !quiet st then return none
+    if o.finOrphan && tearing then
+      match out.events.find? (fun e => eventVerb e == "D" || eventVerb e == "M") with
+      | some e => return some s!"bad write-during-orphan-teardown {e}"
+      | none => pure ()
+      match out.phaseEvents.find? (fun pe => pe.startsWith "X ") with
+      | some pe => return some s!"bad delegated-phase-deleted-during-orphan-teardown {pe}"
+      | none => pure ()
+    for e in out.events do
+      if eventVerb e == "D" then
+        match fs.find? (fun f => keyStr f.2.key == eventKey e) with
+        | none => return some s!"bad delete-of-unlisted-object {e}"
+        | some f => if !f.2.controlled then return some s!"bad delete-of-uncontrolled-object {e}"
+    return none
   | .c15 =>
     let delegated := o.phases.filter (·.cls != "")
     for pe in out.phaseEvents do
@@ -198,6 +230,9 @@ def judge (which : Which) (scn : SysCommon.Scn) (cfg : Cfg) (st : JStep) (pre : 
     if !tearing || archivedDone || !quiet st || dupKeys then return none
     if o.finOrphan then
       if !out.events.isEmpty then return some s!"bad write-during-orphan-teardown {out.events.headD ""}"
+      match out.phaseEvents.find? (fun pe => pe.startsWith "X ") with
+      | some pe => return some s!"bad delegated-phase-deleted-during-orphan-teardown {pe}"
+      | none => pure ()
       return none
     for e in out.events do
       if eventVerb e == "A" then return some s!"bad apply-during-teardown {e}"
@@ -310,11 +345,13 @@ def monitor (which : Which) (s : SysCommon.Scn) (out : String) : String := Id.ru
         match judge which s cfg st sys so with
         | some b => return s!"{b} step={i}"
         | none => pure ()
-    if st.op == "phase" && (which == .c15 || which == .c11) then
+    if st.op == "phase" && (which == .c15 || which == .c11 || which == .c05) then
       match parseStep tok with
       | none => return s!"bad unparsable-step {i} {tok.take 40}"
       | some so =>
-        let r := if which == .c11 then judgeNs s so else judgePhaseStep s (phaseCfgOf s) st sys so
+        let r := if which == .c11 then judgeNs s so
+                 else if which == .c05 then judgePhaseDeletes s (phaseCfgOf s) st sys so
+                 else judgePhaseStep s (phaseCfgOf s) st sys so
         match r with
         | some b => return s!"{b} step={i}"
         | none => pure ()
